@@ -363,7 +363,7 @@ class Interp:
             back = d.while_back(out, s, None) if out is not None else None
             for c in fr.continues:
                 back = d.join(back, d.while_back(c, s, "continue"))
-            new_head = d.join(state, back) if back is not None else state
+            new_head = d.join_head(state, back) if back is not None else state
             new_head = d.widen(head, new_head, n)
             if d.equal(new_head, head) or n >= self.max_loop_iter:
                 if n >= self.max_loop_iter and not d.equal(new_head, head):
@@ -399,7 +399,7 @@ class Interp:
             for c in fr.continues:
                 back = d.join(back, c)
             back = d.for_next(back, s) if back is not None else None
-            new_head = d.join(entry, back) if back is not None else entry
+            new_head = d.join_head(entry, back) if back is not None else entry
             new_head = d.widen(head, new_head, n)
             if d.equal(new_head, head) or n >= self.max_loop_iter:
                 if n >= self.max_loop_iter and not d.equal(new_head, head):
